@@ -95,6 +95,12 @@ func ResolveLoad(u *ssa.UnOp) ssa.Value {
 	if u.Op != token.MUL {
 		return nil
 	}
+	if fa, ok := u.X.(*ssa.FieldAddr); ok {
+		if al, ok := fa.X.(*ssa.Alloc); ok {
+			return localStructField(al, fa.Field, 0)
+		}
+		return nil
+	}
 	al, ok := u.X.(*ssa.Alloc)
 	if !ok {
 		return nil
@@ -120,6 +126,81 @@ func ResolveLoad(u *ssa.UnOp) ssa.Value {
 		}
 		b = b.Preds[0]
 		idx = len(b.Instrs)
+	}
+	return nil
+}
+
+// localStructField: the value of field f of the local struct variable al when it is written exactly once —
+// directly, or by a whole-struct copy from another such variable (the result struct of an inlined helper) — and
+// the variable's address does not escape.
+func localStructField(al *ssa.Alloc, f int, depth int) ssa.Value {
+	if depth > 4 || al.Referrers() == nil {
+		return nil
+	}
+	if _, isStruct := al.Type().(*types.Pointer).Elem().Underlying().(*types.Struct); !isStruct {
+		return nil
+	}
+	var fieldStores []ssa.Value
+	var wholeStores []ssa.Value
+	for _, r := range *al.Referrers() {
+		switch x := r.(type) {
+		case *ssa.FieldAddr:
+			if x.Referrers() == nil {
+				continue
+			}
+			for _, rr := range *x.Referrers() {
+				switch y := rr.(type) {
+				case *ssa.Store:
+					if y.Addr == ssa.Value(x) {
+						if x.Field == f {
+							fieldStores = append(fieldStores, y.Val)
+						}
+					} else {
+						return nil // the field's address is stored somewhere
+					}
+				case *ssa.UnOp:
+					// a read
+				case *ssa.FieldAddr:
+					// nested struct field: reads/writes of a sub-field — give up for that field only
+					if x.Field == f {
+						return nil
+					}
+				default:
+					if x.Field == f {
+						return nil
+					}
+				}
+			}
+		case *ssa.UnOp:
+			// whole-struct read
+		case *ssa.Store:
+			if x.Addr == ssa.Value(al) {
+				// the zero initialisation and a copy of the variable onto itself (`return res` of a named
+				// result) do not change a field
+				if _, isConst := x.Val.(*ssa.Const); isConst {
+					continue
+				}
+				if ld, ok := x.Val.(*ssa.UnOp); ok && ld.Op == token.MUL && ld.X == ssa.Value(al) {
+					continue
+				}
+				wholeStores = append(wholeStores, x.Val)
+			} else {
+				return nil // the address escapes
+			}
+		case *ssa.DebugRef:
+		default:
+			return nil
+		}
+	}
+	switch {
+	case len(fieldStores) == 1 && len(wholeStores) == 0:
+		return fieldStores[0]
+	case len(fieldStores) == 0 && len(wholeStores) == 1:
+		if ld, ok := wholeStores[0].(*ssa.UnOp); ok && ld.Op == token.MUL {
+			if src, ok := ld.X.(*ssa.Alloc); ok {
+				return localStructField(src, f, depth+1)
+			}
+		}
 	}
 	return nil
 }
@@ -232,6 +313,26 @@ func (e *phiEnv) with(b *ssa.BasicBlock, predIdx int) *phiEnv {
 			break
 		}
 		if bt, ok := phi.Type().Underlying().(*types.Basic); !ok || bt.Kind() != types.Bool {
+			// a φ of another type is followed only when the function compares it with a constant (a result
+			// variable / an inlined helper's result tested by the caller): its incoming value decides that test
+			if !comparedWithConst(phi) {
+				continue
+			}
+			v := Strip(phi.Edges[predIdx])
+			if p2, ok := v.(*ssa.Phi); ok && e != nil {
+				if r, ok := e.m[p2]; ok {
+					v = r
+				}
+			}
+			if changed == nil {
+				changed = map[*ssa.Phi]ssa.Value{}
+				if e != nil {
+					for k, x := range e.m {
+						changed[k] = x
+					}
+				}
+			}
+			changed[phi] = v
 			continue
 		}
 		v := phi.Edges[predIdx]
@@ -272,6 +373,59 @@ func (e *phiEnv) with(b *ssa.BasicBlock, predIdx int) *phiEnv {
 	}
 	sortStrings(keys)
 	return &phiEnv{changed, strings.Join(keys, ";")}
+}
+
+var cmpConstCache = map[*ssa.Phi]bool{}
+
+// comparedWithConst: some referrer of phi (through conversions) is a comparison with a constant.
+func comparedWithConst(phi *ssa.Phi) bool {
+	if r, ok := cmpConstCache[phi]; ok {
+		return r
+	}
+	res := false
+	var visit func(v ssa.Value, d int)
+	visit = func(v ssa.Value, d int) {
+		if res || d > 2 || v.Referrers() == nil {
+			return
+		}
+		for _, r := range *v.Referrers() {
+			switch x := r.(type) {
+			case *ssa.BinOp:
+				if _, isCmp := negOp[x.Op]; isCmp {
+					_, cx := Strip(x.X).(*ssa.Const)
+					_, cy := Strip(x.Y).(*ssa.Const)
+					if cx || cy {
+						res = true
+					}
+				}
+			case *ssa.ChangeType:
+				visit(x, d+1)
+			case *ssa.Convert:
+				visit(x, d+1)
+			}
+		}
+	}
+	visit(phi, 0)
+	cmpConstCache[phi] = res
+	return res
+}
+
+// definitelyNonNil: values that cannot be nil.
+func definitelyNonNil(v ssa.Value) bool {
+	switch x := Strip(v).(type) {
+	case *ssa.Alloc, *ssa.MakeInterface, *ssa.MakeClosure, *ssa.MakeMap, *ssa.MakeSlice, *ssa.MakeChan, *ssa.FieldAddr, *ssa.IndexAddr, *ssa.Function, *ssa.Global:
+		_ = x
+		return true
+	}
+	return false
+}
+
+func isNilable(t types.Type) bool {
+	switch t.Underlying().(type) {
+	case *types.Pointer, *types.Interface, *types.Map, *types.Slice, *types.Chan, *types.Signature:
+		return true
+	}
+	return false
 }
 
 // negated wraps a value to mark logical negation without creating SSA instructions.
@@ -335,6 +489,50 @@ func effCond(ifi *ssa.If, env *phiEnv) (ssa.Value, bool, bool, bool) {
 	}
 	if c, ok := v.(*ssa.Const); ok && c.Value != nil && c.Value.Kind() == constant.Bool {
 		return v, neg, true, constant.BoolVal(c.Value) != neg
+	}
+	// a comparison of a followed φ with a constant: decided by the value the φ took on this path
+	if b, ok := Strip(v).(*ssa.BinOp); ok && env != nil {
+		if _, isCmp := negOp[b.Op]; isCmp {
+			resolve := func(w ssa.Value) ssa.Value {
+				w = Strip(w)
+				for i := 0; i < 3; i++ {
+					switch x := w.(type) {
+					case *ssa.ChangeType:
+						w = Strip(x.X)
+						continue
+					case *ssa.Convert:
+						w = Strip(x.X)
+						continue
+					}
+					break
+				}
+				if ph, ok := w.(*ssa.Phi); ok {
+					if r, ok := env.m[ph]; ok {
+						if _, isNeg := r.(*negated); !isNeg {
+							return Strip(r)
+						}
+					}
+				}
+				return w
+			}
+			x, y := resolve(b.X), resolve(b.Y)
+			cx, okx := x.(*ssa.Const)
+			cy, oky := y.(*ssa.Const)
+			var res, known bool
+			switch {
+			case okx && oky && cx.Value == nil && cy.Value == nil:
+				res, known = b.Op == token.EQL || b.Op == token.LEQ || b.Op == token.GEQ, true
+			case okx && oky && cx.Value != nil && cy.Value != nil && cx.Value.Kind() == cy.Value.Kind() && cx.Value.Kind() != constant.Unknown:
+				res, known = constant.Compare(cx.Value, b.Op, cy.Value), true
+			case (b.Op == token.EQL || b.Op == token.NEQ) && oky && cy.Value == nil && isNilable(y.Type()) && definitelyNonNil(x):
+				res, known = b.Op == token.NEQ, true
+			case (b.Op == token.EQL || b.Op == token.NEQ) && okx && cx.Value == nil && isNilable(x.Type()) && definitelyNonNil(y):
+				res, known = b.Op == token.NEQ, true
+			}
+			if known {
+				return v, neg, true, res != neg
+			}
+		}
 	}
 	// a comparison of two constants (left behind by the normalisation: `err := nil; if err != nil`)
 	if b, ok := Strip(v).(*ssa.BinOp); ok && (b.Op == token.EQL || b.Op == token.NEQ) {
